@@ -77,6 +77,8 @@ pub(crate) mod value_flags;
 pub(crate) mod verification;
 #[cfg(wild_verif)]
 pub(crate) mod verif;
+#[cfg(wild_verif)]
+pub mod verif_api;
 pub(crate) mod version_script;
 
 use crate::elf::Elf;
